@@ -9,7 +9,7 @@ import vals
 from pool import word
 
 KINDS_W = ["pedantic", "buffer", "constexpr", "sstream", "fd"]
-KINDS_R = ["pedantic", "buffer", "sstream", "fstream", "fd"]
+KINDS_R = ["pedantic", "buffer", "sstream", "fstream", "fd", "fdburst"]
 BIGCAP = 1 << 20
 
 
@@ -264,7 +264,7 @@ def small_values(run, types, nrandom=1, limit_bytes=600):
 
 
 def all_reader_kinds(S):
-    ks = ["pedantic", "buffer", "sstream", "fstream"] + ([] if needs_skip(S) else ["fd"])
+    ks = ["pedantic", "buffer", "sstream", "fstream"] + ([] if needs_skip(S) else ["fd", "fdburst"])
     out = list(ks)
     for k in ks:
         out.append({"bounded": k, "limit": BIGCAP})
@@ -451,9 +451,11 @@ def check_C11(run):
 def hostile_cmds(run, types, thorough, for_c02):
     rng = random.Random(run.seed)
     per_type = {}
+    vp = sorted(t for t in types if t.startswith('TV_') or t.startswith('S_TV_') or t.startswith('vec<TV_'))
+    vp_keep = set(vp if thorough else vp[::12])
     for tid, S, v in small_values(run, types, nrandom=2 if thorough else 1, limit_bytes=150):
-        if is_unbounded(S):
-            continue
+        if is_unbounded(S) or (tid in vp and tid not in vp_keep):
+            continue     # (the table version pool is C07/C08's subject; a sample of it is enough here)
         per_type.setdefault(tid, []).append(v)
     groups = []
     rks_c02 = ["buffer", "pedantic", {"bounded": "buffer", "limit": 64}, {"bounded": "pedantic", "limit": BIGCAP},
@@ -511,10 +513,41 @@ def hostile_cmds(run, types, thorough, for_c02):
             groups.append(g)
             run.distinct.add((tid, vf.digest(v)))
             n += 1
+    # a fungible vector peer sends more elements than the logical buffer's array holds: counts just above the
+    # capacity and counts that wrap to an in-capacity value when narrowed to the size member (n + 2^8, n + 2^16)
+    gen = vals.Gen(seed=run.seed, nrandom=0)
+    for tid, S in types.items():
+        if not tid.startswith('SL') or ('SV' + tid[2:]) not in types:
+            continue
+        vt = 'SV' + tid[2:]
+        g = []
+        lb = [m for m in S["m"] if m["k"] == "lbuf"][0]
+        ev = gen.values(lb["e"], 2)
+        cap = lb["n"]
+        counts = [cap + 1, cap + 2, 256, 257, 256 + min(cap, 2), 127, 128, 255]
+        if thorough:
+            counts += [65536, 65536 + min(cap, 2)]
+        base = gen.values(types[vt])[0]
+        for cnt in sorted(set(counts)):
+            v = {"m": []}
+            for i, m in enumerate(S["m"]):
+                if m["k"] == "lbuf":
+                    v["m"].append({"n": [ev[(i + j) % len(ev)] for j in range(cnt)]})
+                else:
+                    v["m"].append(base["m"][i])
+            g.append({"c": "w", "wk": "pedantic", "cap": BIGCAP * 4, "items": [{"tid": vt, "v": v}], "nolog": 1})
+            for rk in (rks_c02 if for_c02 else rks_c04)[:3]:
+                if isinstance(rk, dict) and rk.get("limit", 0) < BIGCAP:
+                    rk = {"bounded": rk["bounded"], "limit": BIGCAP * 4}
+                item = {"tid": tid}
+                if for_c02:
+                    item["inspect"] = 1
+                g.append({"c": "r", "rk": rk, "src": "last", "items": [item], "nolog": 1, "tag": {"cat": True}})
+        groups.append(g)
     # short arbitrary strings over a hostile alphabet, read as every type
     alpha = [0x00, 0x01, 0x7f, 0x80, 0x81, 0x84, 0xb5, 0xb9, 0xba, 0xbc, 0xbd, 0xbe, 0xc0, 0xff]
     for tid, S in types.items():
-        if is_unbounded(S):
+        if is_unbounded(S) or (tid in vp and tid not in vp_keep):
             continue
         g = []
         for _ in range(30 if thorough else 8):
@@ -675,14 +708,14 @@ def check_C17(run):
     k = 0
     for side in ("r", "w"):
         full, sample = seqs[side]
-        kinds = ["pedantic", "buffer", "sstream", "fstream", "fd"] if side == "r" else ["pedantic", "buffer", "constexpr", "sstream", "fd"]
-        lens = (0, 1, 2, 3, 4, 6) if side == "r" else (0, 1, 2, 3, 4, 6)
+        kinds = ["pedantic", "buffer", "sstream", "fstream", "fd", "fdburst"] if side == "r" else ["pedantic", "buffer", "constexpr", "sstream", "fd"]
+        lens = (0, 1, 2, 3, 4, 6, 12) if side == "r" else (0, 1, 2, 3, 4, 6)
         allseqs = list(full) + list(sample) + random_sequences(rng, side, 2000 if thorough else 500, 10)
         for seq in allseqs:
             for ln in (lens if (thorough or len(seq) <= 2) else (lens[k % 6],)):
                 for kind in kinds:
                     for bounded in (False, True):
-                        if kind == "fd" and any(c["op"] in ("skip", "pad", "skipw", "padw") for c in seq):
+                        if kind in ("fd", "fdburst") and any(c["op"] in ("skip", "pad", "skipw", "padw") for c in seq):
                             continue
                         if not bounded and any(c["op"] in ("pad", "padw") for c in seq):
                             continue
@@ -1290,11 +1323,31 @@ def key_tl(ev, why, cmd=None):
         ev.get("mode"), ev.get("threads"), ', '.join(why), ev.get("idx"))
 
 
+def _rpc_step(rng):
+    s = lambda txt: {"cw": 1, "b": [ord(c) for c in txt]}
+    calls = []
+    for _ in range(rng.randrange(1, 4)):
+        m = rng.choice(["Sum", "Concat", "Echo", "Div"])
+        if m == "Sum":
+            a = {"m": [word(rng.randrange(-1000, 1000), 4), word(rng.randrange(-1000, 1000), 4)]}
+        elif m == "Concat":
+            a = {"m": [s("thread-%d-" % rng.randrange(100)), s("x" * rng.randrange(0, 40))]}
+        elif m == "Echo":
+            a = {"m": [{"n": [[rng.randrange(256)] for _ in range(rng.randrange(0, 9))]}]}
+        else:
+            a = {"m": [word(rng.randrange(-50, 50), 4), word(rng.randrange(-3, 4), 4)]}
+        calls.append({"m": m, "args": a})
+    return {"op": "rpc", "slot": 0, "val": 0, "iface": "calc", "calls": calls}
+
+
 def random_tl_program(rng, n):
     prog = []
     for _ in range(n):
-        op = rng.choice(["init", "init", "set", "clear", "codec", "codec"])
-        prog.append({"op": op, "slot": rng.randrange(3), "val": rng.randrange(1, 1000)})
+        op = rng.choice(["init", "init", "set", "clear", "codec", "codec", "rpc"])
+        if op == "rpc":
+            prog.append(_rpc_step(rng))
+        else:
+            prog.append({"op": op, "slot": rng.randrange(3), "val": rng.randrange(1, 1000)})
     return prog
 
 
@@ -1328,9 +1381,12 @@ def check_C19(run):
     run.samples = [c for c in cmds if c.get("mode") == "lockstep"][:1] + [c for c in cmds if c.get("mode") == "free"][:1]
     run.distinct = set(vf.digest(c) for c in cmds)
     exe, types_path = vf.get_exe(run, 'tsan')
+    ipath = os.path.join(run.work, 'ifaces.json')
+    with open(ipath, 'w') as f:
+        json.dump(rpc_ifaces(), f)
     trace = vf.exec_commands(run, exe, cmds, 'c19', per_cmd_timeout=60,
                              env={"TSAN_OPTIONS": "halt_on_error=1 exitcode=66 report_signal_unsafe=0"})
-    rejected = vf.tlc_validate(run, 'TrThreads', 'TrCodec.cfg', trace, {"PROP": "C19", "TYPES": types_path})
+    rejected = vf.tlc_validate(run, 'TrThreads', 'TrCodec.cfg', trace, {"PROP": "C19", "TYPES": types_path, "IFACES": ipath})
     add_rejections(run, rejected, key_tl, index_cmds(cmds))
     return vf.finish(run, rule='TLC-enumerated interleavings (MC_Threads: 2 threads exhaustively, 3 threads in the thorough tier) of '
                                'ThreadLocal Initialize/Get/Set/Clear programs replayed by real threads in lock step, plus 4-16 '
